@@ -148,3 +148,30 @@ Proof.
       with (qnat (S (S (S (2 * i)))) * qnat (S (S (2 * i))) * (b * b) * laplace_central b (S (2 * i))).
     rewrite IH2. ring.
 Qed.
+
+(* ---------- linear forms  l0 + l1 * z  in a fresh draw z (dist_transformer.py) ----------
+   Values live in Q(sqrt s) : pairs (rational part, coefficient of the square root). *)
+Record lin := mklin { l0 : Qc; l1 : sqv }.
+
+Definition sqv_pow (s : sqv) (j : nat) : Qc * Qc :=
+  match s with
+  | Rat q => (qpow q j, 0)
+  | Sqrt q => if Nat.even j then (qpow q (Nat.div2 j), 0) else (0, qpow q (Nat.div2 j))
+  end.
+
+(* E[(l0 + l1 z)^k] by expanding the power and replacing z^j by the j-th moment m j of the
+   new draw — what Polar computes after the rewriting *)
+Definition lin_moment (l : lin) (m : nat -> Qc) (k : nat) : Qc * Qc :=
+  (sumn (fun j => qbinom k j * qpow (l0 l) (k - j) * fst (sqv_pow (l1 l) j) * m j) (S k),
+   sumn (fun j => qbinom k j * qpow (l0 l) (k - j) * snd (sqv_pow (l1 l) j) * m j) (S k)).
+
+Lemma sumn_zero f n : (forall j, (j < n)%nat -> f j = 0) -> sumn f n = 0.
+Proof. induction n as [|n IH]; intros E; cbn [sumn]; [reflexivity|]. rewrite IH, E by auto. ring. Qed.
+
+Lemma lin_moment_rat a s m k :
+  lin_moment (mklin a (Rat s)) m k = (binsum a (fun j => qpow s j * m j) k, 0).
+Proof.
+  unfold lin_moment, binsum. cbn [l0 l1 sqv_pow fst snd]. f_equal.
+  - apply sumn_ext. intros j _. ring.
+  - apply sumn_zero. intros j _. ring.
+Qed.
